@@ -38,7 +38,7 @@ def gen_case(rng, tier):
         c["dtype"] = rng.choice(['float64', 'float64', 'float32'])
         c["desc"] = G.rand_desc(rng, labels, kmax=6 if c["dtype"] == 'float32' else 8, jmax=1 if c["dtype"] == 'float32' else 2)
     elif kind == 'cqm':
-        c["cqm"] = G.rand_cqm_desc(rng)
+        c["cqm"] = G.rand_cqm_desc(rng, shaped_p=0.6)
         c["compress"] = rng.random() < 0.4
         c["check_header"] = rng.random() < 0.8
     elif kind == 'dqm':
@@ -166,7 +166,8 @@ def run_case(c):
         labs = list(m.constraints)
         feats.update(compress=c["compress"], slash_label=any('/' in json.dumps(G.tl(l)) for l in labs),
                      soft=any(x["soft"] for x in s0["constraints"].values()),
-                     discrete=any(x["discrete"] for x in s0["constraints"].values()))
+                     discrete=any(x["discrete"] for x in s0["constraints"].values()),
+                     onehot_unmarked=any(x["onehot"] and not x["discrete"] for x in s0["constraints"].values()))
         # byte level: every expression member, the varinfo member, the label member
         try:
             mem = G.zip_members(data)
